@@ -1,6 +1,7 @@
 import Driver.Util
 import GqlgenVerif.Model.Complexity
 import GqlgenVerif.Model.ComplexitySwitch
+import GqlgenVerif.Gen.ComplexityLabels
 /-! Line-protocol driver for C14: the complexity walker, its Spec, safeAdd and the gate.
 
 ```
@@ -12,6 +13,9 @@ gate <complexity> <limit>              ->  <execCalls> <code|->
 gencx <objs> <Type> <field>            ->  <entry the modelled switch dispatches to | -> <entry by the documented binding | ->
 gencalc <objs> <entries> <schema> <vars> <doc>
                                        ->  <walker over the modelled generated switch> <Spec over the documented binding>
+gencxl <s|f> <objs> <Type> <field>     ->  the same as gencx, the switch being the STRING switch of that template flavour
+gencalcl <s|f> <objs> <entries> <schema> <vars> <doc>      (s = generated!.gotpl, f = root_.gotpl; labels, tag, guards and
+                                           selectors as regenerated into `Gen/ComplexityLabels.lean`)
 ```
 objs = `Name:reserved:field>key>reserved|…;…` (what `codegen.Data.Objects` holds; key = the Go field name, normalised;
 reserved = 0 | 1); entries = the `ComplexityRoot` table `Type.key=<expr>;…`. The switch model groups the fields with the
@@ -135,8 +139,37 @@ def showEntry : Option (String × String) → String
   | some (o, k) => s!"{o}.{k}"
   | none => "-"
 
+def flavourOf : String → Option ComplexityLabel.Flavour
+  | "s" => some Gen.ComplexityLabels.single
+  | "f" => some Gen.ComplexityLabels.follow
+  | _ => none
+
+/-- a Go selector `ComplexityRoot.<Struct>.<entry>` shown by the schema type whose struct it is -/
+def schemaTypeOf (os : List ComplexitySwitch.GObject) (s : String) : String :=
+  match os.find? fun o => ComplexityLabel.ucFirst o.name == s with
+  | some o => o.name
+  | none => s
+
+def showGoEntry (os : List ComplexitySwitch.GObject) : Option (String × String) → String
+  | some (s, k) => s!"{schemaTypeOf os s}.{k}"
+  | none => "-"
+
+/-- the user's ComplexityRoot value as Go addresses it, from the table keyed by schema type -/
+def goRootOf (os : List ComplexitySwitch.GObject) (tbl : List ((String × String) × Expr)) : ComplexityLabel.GoRoot :=
+  fun s k => (tbl.lookup (schemaTypeOf os s, k)).map fun e => e.eval
+
 def step (line : String) : String :=
   match line.splitOn " " with
+  | ["gencxl", fl, objs, t, f] =>
+    match flavourOf fl, parseObjs objs with
+    | some fl, some os => s!"{showGoEntry os (ComplexityLabel.dispatchBy fl os t f)} {showEntry (ComplexitySwitch.Spec.entryOf os t f)}"
+    | _, _ => "bad-op"
+  | ["gencalcl", fl, objs, ents, sch, vs, doc] =>
+    match flavourOf fl, parseObjs objs, parseCustoms ents, parseVars vs, parseDoc doc with
+    | some fl, some os, some tbl, some vars, some op =>
+      let S := parseSchema sch
+      s!"{calculate S (ComplexityLabel.switchCustomBy fl os (goRootOf os tbl)) vars op} {Spec.complexity S (ComplexitySwitch.Spec.boundCustom os (rootOf tbl)) vars op}"
+    | _, _, _, _, _ => "bad-op"
   | ["gencx", objs, t, f] =>
     match parseObjs objs with
     | some os => s!"{showEntry (ComplexitySwitch.dispatch os t f)} {showEntry (ComplexitySwitch.Spec.entryOf os t f)}"
